@@ -42,6 +42,42 @@ from . import core, gens  # noqa: E402
 FIXED = True   # the main model is the repaired behaviour
 
 
+class ImplHang(Exception):
+    """the implementation did not return within the time limit"""
+
+
+class time_limit:
+    """`with time_limit(s):` - raise ImplHang in the main thread when the body (a call into the real code that
+    takes milliseconds on the unchanged tree) has not returned after `s` seconds: a loop of the implementation
+    that no longer terminates is reported for the input at hand instead of hanging the whole run."""
+
+    def __init__(self, seconds):
+        self.seconds = seconds
+        self.armed = False
+
+    def _raise(self, signum, frame):
+        raise ImplHang(f"no result after {self.seconds} s")
+
+    def __enter__(self):
+        import signal
+        import threading
+        if threading.current_thread() is threading.main_thread() and hasattr(signal, "setitimer"):
+            self.old = signal.signal(signal.SIGALRM, self._raise)
+            signal.setitimer(signal.ITIMER_REAL, self.seconds)
+            self.armed = True
+        return self
+
+    def __exit__(self, *exc):
+        if self.armed:
+            import signal
+            signal.setitimer(signal.ITIMER_REAL, 0)
+            signal.signal(signal.SIGALRM, self.old)
+        return False
+
+
+HANG_LIMIT = 20      # seconds; simplify on the circuits generated here takes well under 0.1 s
+
+
 # ------------------------------------------------------------------------------------------------
 # leaves
 # ------------------------------------------------------------------------------------------------
@@ -99,7 +135,7 @@ def lean_leaf(spec, obj=None):
         return {"perm": list(spec["perm"])}
     if t == "Barrier":
         return {"barrier": spec["m"]}
-    if t == "LC":
+    if t in ("LC", "TD"):
         return {"un": 1, "U": [[[str(1000 + spec["id"]), "0"]]]}
     if obj is None:
         obj = gens.build_leaf(spec)
@@ -929,9 +965,14 @@ def judge_simplify(chk, case, count=True):
     coder = ItemCoder()
     states = [[]]
     try:
-        for k in range(1, n + 1):
-            states.append(simplify([[r, c] for r, c in comps[:k]], m, display))
-        final = simplify(circ if not case["as_list"] else [[r, c] for r, c in comps], m, display)
+        with time_limit(HANG_LIMIT):
+            for k in range(1, n + 1):
+                states.append(simplify([[r, c] for r, c in comps[:k]], m, display))
+            final = simplify(circ if not case["as_list"] else [[r, c] for r, c in comps], m, display)
+    except ImplHang as e:
+        return ("violation", "simplify-does-not-return", f"simplify({len(comps)} components on {m} modes, "
+                f"display={display}) has not returned after {HANG_LIMIT} s (prefix {len(states)} of {n})",
+                {"case": case})
     except Exception as e:   # anything the simplifier raises on a valid circuit
         if isinstance(e, ValueError) and "out of bound" in str(e):
             chk.branch("skipped-C14-wrap")
@@ -1097,7 +1138,10 @@ def gen_flat_node(rng, m, depth, max_ops, lc, allow_lc):
             ops.append({"off": rng.randint(0, m - k), "node": gen_flat_node(rng, k, depth - 1, max(1, max_ops // 2), lc, False)})
         elif allow_lc and r < 0.6:
             lc[0] += 1
-            ops.append({"off": rng.randrange(m), "node": {"leaf": {"t": "LC", "id": lc[0], "loss": rng.choice([0.1, 0.25, 0.5])}}})
+            if allow_lc == "td" and rng.random() < 0.4:
+                ops.append({"off": rng.randrange(m), "node": {"leaf": {"t": "TD", "id": lc[0], "dt": rng.choice([1, 2])}}})
+            else:
+                ops.append({"off": rng.randrange(m), "node": {"leaf": {"t": "LC", "id": lc[0], "loss": rng.choice([0.1, 0.25, 0.5])}}})
         else:
             spec = gen_leaf(rng, m, kinds=("BS", "PS", "PERM", "U", "Barrier"))
             ops.append({"off": rng.randint(0, m - gens.leaf_width(spec)), "node": {"leaf": spec}})
@@ -1109,8 +1153,9 @@ def gen_flat_case(rng, chk):
     if rng.random() < 0.15:
         m = rng.randint(WIDE_MIN, chk.pick(14, 20))
     lc = [0]
+    r = rng.random()
     top = gen_flat_node(rng, m, rng.randint(1, chk.pick(3, 4)), rng.randint(1, chk.pick(6, 9)), lc,
-                        allow_lc=rng.random() < 0.5)
+                        allow_lc="td" if r < 0.15 else r < 0.55)
     return {"m": m, "top": top, "max_depth": rng.choice([None, None, 0, 1, 2])}
 
 
@@ -1119,6 +1164,9 @@ def build_flat(node):
     from perceval.components import LC
     if "leaf" in node:
         s = node["leaf"]
+        if s["t"] == "TD":
+            from perceval.components import TD
+            return TD(s["dt"])
         return LC(s["loss"]) if s["t"] == "LC" else gens.build_leaf(s)
     c = pcvl.Circuit(node["circ"])
     for op in node["ops"]:
@@ -1170,7 +1218,7 @@ def judge_flatten_(chk, case, count=True):
     mod = [(e["r0"], e["w"]) for e in rep["flat"]]
 
     def comp_ok(c, e):
-        if isinstance(c, LC):
+        if not hasattr(c, "compute_unitary"):      # loss channel, time delay: travels as a placeholder
             return len(e["U"]) == 1 and float(core.unrat(e["U"][0][0][0])) >= 1000
         return close_np(np_u(c), np.array(core.unmat(e["U"]), dtype=complex))
 
@@ -1192,29 +1240,62 @@ def judge_flatten_(chk, case, count=True):
     if count:
         chk.branch("flatten-depth-" + ("none" if md is None else "limited"))
     # ---- non_unitary_circuit(): regrouping into unitary blocks
-    rep2 = chk.lean.ask({"op": "regroup", "fixed": FIXED, "tree": tree})
+    from perceval.components.linear_circuit import ACircuit
+    has_td = _has_td(case["top"])
+    rep2 = chk.lean.ask({"op": "regroup", "fixed": FIXED, "tree": tree, "full": True, "hasTd": has_td})
+    if "err" in rep2:
+        return ("broken", "regroup-model-error", rep2["err"], {"case": case})
     groups = proc.non_unitary_circuit()
-    obs_g = [(int(list(r)[0]), len(list(r)), isinstance(c, LC)) for r, c in groups]
-    mod_g = [(g["r0"], g["w"], "non" in g) for g in rep2["groups"]]
-    ok_g = obs_g == mod_g and all(
-        ("non" in g) or close_np(np_u(c), np.array(core.unmat(g["U"]), dtype=complex))
-        for (_, c), g in zip(groups, rep2["groups"]))
-    if not ok_g:
-        # direct oracle without loss channels: blocks in order reproduce the matrix
-        if not has_lc:
-            want = np_u(proc.linear_circuit())
-            got = np_u(circuit_of(m, [(tuple(r), c) for r, c in groups])) if groups else np.eye(m)
-            if not close_np(got, want):
-                return ("violation", "regroup-matrix", f"non_unitary_circuit() blocks {obs_g} do not reproduce the "
-                        f"circuit matrix (deviation {float(np.max(np.abs(got - want))):.3g})", {"case": case})
-        elif [x[:2] for x in obs_g] != [x[:2] for x in mod_g]:
-            return ("violation", "regroup-range", f"non_unitary_circuit() places its blocks at {obs_g}; the components "
-                    f"they were computed from occupy {mod_g}", {"case": case})
-        return ("broken", "regroup-model-vs-code", f"non_unitary_circuit: code {obs_g}, model {mod_g}", {"case": case})
-    if count:
-        chk.branch("regroup" + ("-with-loss" if has_lc else ""))
-        if has_lc and len(groups) >= 3:
-            chk.branch("regroup-several-blocks")
+    # direct oracle on the real objects: the returned list denotes what the flattened list denotes (every maximal
+    # run of unitary components: their ordered product; the non-unitary components in between, unchanged, in order)
+    if not den_equal(den_np(m, groups), den_np(m, proc.flatten())):
+        return ("violation", "regroup-denotation", f"non_unitary_circuit() returns "
+                f"{[(int(list(r)[0]), len(list(r)), type(c).__name__) for r, c in groups]}: not the unitary runs of the "
+                f"flattened components between its non-unitary components", {"case": case})
+    if has_td:
+        # `_has_td`: the component list is returned as it is
+        obs_c = [(int(list(r)[0]), len(list(r)), not isinstance(c, ACircuit)) for r, c in groups]
+        mod_c = [(g["r0"], g["w"], "non" in g) for g in rep2.get("components", [])]
+        same_objs = [id(c) for _, c in groups] == [id(c) for _, c in proc.components]
+        if not rep2.get("td") or obs_c != mod_c or not same_objs:
+            return ("broken", "regroup-td-model-vs-code", f"non_unitary_circuit() with a time delay: code {obs_c} "
+                    f"(the components themselves: {same_objs}), model {mod_c}", {"case": case})
+        if count:
+            chk.branch("regroup-time-delay")
+    else:
+        obs_g = [(int(list(r)[0]), len(list(r)), not isinstance(c, ACircuit)) for r, c in groups]
+        mod_g = [(g["r0"], g["w"], "non" in g) for g in rep2["groups"]]
+        ok_g = obs_g == mod_g and all(
+            ("non" in g) or close_np(np_u(c), np.array(core.unmat(g["U"]), dtype=complex))
+            for (_, c), g in zip(groups, rep2["groups"]))
+        if not ok_g:
+            if [x[:2] for x in obs_g] != [x[:2] for x in mod_g]:
+                return ("broken", "regroup-range", f"non_unitary_circuit() places its blocks at {obs_g}; the model "
+                        f"at {mod_g} (the list denotes the same runs)", {"case": case})
+            return ("broken", "regroup-model-vs-code", f"non_unitary_circuit: code {obs_g}, model {mod_g}", {"case": case})
+        # the block put back on its range is the product of the run on all modes (regroup_denotation)
+        for (r, c), g in zip(groups, rep2["groups"]):
+            if "non" not in g and not close_np(embed_np(np_u(c), g["r0"], m),
+                                                np.array(core.unmat(g["full"]), dtype=complex)):
+                return ("broken", "regroup-full-model-vs-code", f"block at {g['r0']} (+{g['w']}): embedded back it is "
+                        f"not the model's product of the {g['n']} components of the run", {"case": case})
+        if count:
+            chk.branch("regroup" + ("-with-loss" if has_lc else ""))
+            if has_lc and len(groups) >= 3:
+                chk.branch("regroup-several-blocks")
+            if any("non" not in g and g["n"] >= 2 and g["w"] < m for g in rep2["groups"]):
+                chk.branch("regroup-block-of-several-comps-narrower-than-circuit")
+    # ---- unitary_circuit(): defined exactly when no non-unitary component was added
+    try:
+        proc.linear_circuit()
+        raised = False
+    except RuntimeError:
+        raised = True
+    if raised == rep2.get("unitary", not raised):
+        return ("broken", "unitary-circuit-model-vs-code", f"linear_circuit() {'raises' if raised else 'returns'}; the "
+                f"model's unitary_circuit is {'defined' if rep2.get('unitary') else 'undefined'}", {"case": case})
+    if count and raised:
+        chk.branch("unitary-circuit-refused")
     # ---- unitary processors: linear_circuit(flatten=True), copy()
     if not has_lc:
         tree_u = chk.lean.ask({"op": "inverse", "fixed": FIXED, "seq": [], "tree": tree})
@@ -1244,9 +1325,57 @@ def judge_flatten_(chk, case, count=True):
 
 
 def _has_lc(node):
+    """a non-unitary component (loss channel or time delay)"""
     if "leaf" in node:
-        return node["leaf"]["t"] == "LC"
+        return node["leaf"]["t"] in ("LC", "TD")
     return any(_has_lc(op["node"]) for op in node["ops"])
+
+
+def _has_td(node):
+    if "leaf" in node:
+        return node["leaf"]["t"] == "TD"
+    return any(_has_td(op["node"]) for op in node["ops"])
+
+
+def embed_np(u, r0, m):
+    out = np.eye(m, dtype=complex)
+    k = u.shape[0]
+    out[r0:r0 + k, r0:r0 + k] = u
+    return out
+
+
+def den_np(m, comps):
+    """what a component list denotes: every maximal run of unitary components as the ordered product of their
+    matrices on the m modes, every non-unitary component as itself (object, modes) - computed on the real objects"""
+    from perceval.components.linear_circuit import ACircuit
+    out, acc = [], None
+    for r, c in comps:
+        r = [int(x) for x in r]
+        if isinstance(c, ACircuit):
+            u = embed_np(np_u(c), r[0], m)
+            acc = u if acc is None else u @ acc
+        else:
+            if acc is not None:
+                out.append(acc)
+                acc = None
+            out.append(("non", id(c), tuple(r)))
+    if acc is not None:
+        out.append(acc)
+    return out
+
+
+def den_equal(a, b):
+    if len(a) != len(b):
+        return False
+    for x, y in zip(a, b):
+        if isinstance(x, tuple) != isinstance(y, tuple):
+            return False
+        if isinstance(x, tuple):
+            if x != y:
+                return False
+        elif not close_np(x, y):
+            return False
+    return True
 
 
 def shrink_flatten(chk, case, sig):
@@ -1346,8 +1475,10 @@ def run(chk: core.Check):
                 "random permutations of up to 40 modes for the helpers and the bubble sort)")
     chk.assumptions = [
         "Unitary / PERM leaves are known to the model by their own compute_unitary() (C14); BS and PS by exact parameters",
-        "the validity of the simplifier's heuristic choice (_generate_compatible_perm) is not proved: ValidChoice is "
-        "evaluated on every observed choice",
+        "the simplifier's heuristic (_generate_compatible_perm / _update_perm / _search_empty_space) is modelled "
+        "exactly and proved to give a valid choice; the correspondence observes it through simplify only (the "
+        "unravelling permutation is recovered from the output when the circuit is unravelled, through the score "
+        "comparison when it is kept)",
         "beyond 12 modes the reference matrix of simplify / decompose_perms is the exact row-wise (Fraction) product "
         "of the leaves' own matrices computed by the harness; it is cross-checked against the Lean model on every "
         "case of at most 12 modes",
@@ -1360,13 +1491,18 @@ def run(chk: core.Check):
         "simp-successive", "simp-single", "simp-non-successive/kept", "simp-non-successive/unravelled",
         "simp-ps/keep", "simp-ps/drop", "simp-ps-fused", "simp-ps-fused-through-perm", "simp-display", "simp-compute",
         "decompose-perms", "flatten-depth-none", "flatten-depth-limited", "flatten-two-levels-nonzero-offset",
-        "regroup-with-loss", "copy", "linear-circuit-flatten",
+        "regroup-with-loss", "regroup-time-delay", "regroup-several-blocks", "unitary-circuit-refused",
+        "regroup-block-of-several-comps-narrower-than-circuit", "copy", "linear-circuit-flatten",
         # wide circuits (>= 9 modes, permutations as wide as the circuit) in every family
         "inv-wide", "inv-wide-component", "perm-wide-invert", "perm-wide-reduce", "perm-wide-extend",
         "perm-wide-compose", "bubble-wide", "simp-wide", "simp-wide-perm", "simp-wide-unravelled",
         "simp-wide-unravelled-high-modes", "simp-unravelled-group-across-8", "simp-unravelled-group-across-16",
         "simp-unravelled-overlapping-comps", "decompose-perms-wide", "flatten-wide", "flatten-wide-with-loss",
         "exact-product-cross-checked",
+        # the exact model of the heuristic: every non-successive step equals the model's single result, and the
+        # paths of _generate_compatible_perm / _update_perm / _search_empty_space are all taken
+        "simp-heuristic-exact", "heur-first-step", "heur-second-step", "heur-search-left", "heur-search-right",
+        "heur-identity-retry", "heur-shift-right", "heur-shift-left", "heur-shift-right-wide",
     ]
     chk.lean = core.LeanDriver("C11")
     rng = chk.rng
